@@ -230,6 +230,7 @@ impl Scenario for IoFault {
                             continue;
                         }
                         ctx.sub_evals += 1;
+                        ctx.tick();
                         let mut pol = Policy::At { k, d: *d };
                         if c.pair {
                             let k2 = k + 1 + r.below(20);
@@ -360,6 +361,7 @@ impl Scenario for IoFault {
                             continue;
                         }
                         ctx.sub_evals += 1;
+                        ctx.tick();
                         let pol = Policy::At { k, d: *d };
                         let mut io = None;
                         let sched = format!("fault {d:?} at source call {k} ({opk:?})");
